@@ -193,7 +193,63 @@ pub struct Stats {
 }
 
 /// `dec`: the clock of every write is *earlier* than that of the write before it.
-pub async fn exec(nodes: &[LiveNode], hist: &[LEv], dec: bool, salt: u64, deadline: Duration, stats: &mut Stats) -> Bad {
+fn row_of(e: &iroh_docs::Entry) -> Row {
+    (e.author().to_bytes(), e.key().to_vec(), e.timestamp(), *e.content_hash().as_bytes(), e.content_len())
+}
+
+type EventLog = std::sync::Arc<std::sync::Mutex<Vec<iroh_docs::engine::LiveEvent>>>;
+
+/// Subscribes to a document through the docs API (replica events of the store actor merged
+/// with the live actor's events, as applications see them) and collects everything.
+async fn event_log(doc: &Doc) -> Result<(EventLog, tokio::task::JoinHandle<()>), String> {
+    let mut st = doc.subscribe().await.map_err(|e| format!("subscribe: {e:#}"))?;
+    let log: EventLog = Default::default();
+    let log2 = log.clone();
+    let task = tokio::spawn(async move {
+        while let Some(ev) = st.next().await {
+            if let Ok(ev) = ev {
+                log2.lock().unwrap().push(ev);
+            }
+        }
+    });
+    Ok((log, task))
+}
+
+/// C12 on the live swarm: what a subscriber of node `i` saw, against what node `i` wrote and holds.
+fn event_verdicts(i: usize, log: &EventLog, local_writes: &[Row], all: &BTreeSet<Row>, held: &BTreeSet<Row>, own_author: [u8; 32]) -> Vec<(&'static str, String)> {
+    use iroh_docs::engine::LiveEvent;
+    let evs = log.lock().unwrap();
+    let mut out = vec![];
+    let locals: Vec<Row> = evs.iter().filter_map(|e| if let LiveEvent::InsertLocal { entry } = e { Some(row_of(entry)) } else { None }).collect();
+    if locals != local_writes {
+        out.push(("live_local_events_match_accepted_writes", format!("node {i}: InsertLocal events {} but the accepted local writes were {}", show_list(&locals), show_list(local_writes))));
+    }
+    let remotes: Vec<Row> = evs.iter().filter_map(|e| if let LiveEvent::InsertRemote { entry, .. } = e { Some(row_of(entry)) } else { None }).collect();
+    for r in &remotes {
+        if !all.contains(r) {
+            out.push(("live_event_entries_were_written", format!("node {i}: InsertRemote event for an entry nobody wrote: {}", show_list(&[r.clone()]))));
+        } else if r.0 == own_author {
+            out.push(("live_no_remote_event_for_own_entries", format!("node {i}: InsertRemote event for an entry the node wrote itself (it cannot have entered again): {}", show_list(&[r.clone()]))));
+        }
+        if remotes.iter().filter(|x| *x == r).count() > 1 {
+            out.push(("live_remote_event_at_most_once", format!("node {i}: {} InsertRemote events for {}", remotes.iter().filter(|x| *x == r).count(), show_list(&[r.clone()]))));
+        }
+    }
+    for h in held {
+        if h.0 != own_author && !remotes.contains(h) {
+            out.push(("live_remote_event_for_every_entry_held", format!("node {i} holds {} (written elsewhere) but its subscriber saw no InsertRemote event for it; events: {}", show_list(&[h.clone()]), show_list(&remotes))));
+        }
+    }
+    out
+}
+
+fn show_list(rows: &[Row]) -> String {
+    let v: Vec<String> = rows.iter().map(|r| format!("{:02x}:{}@{}{}", r.0[0], String::from_utf8_lossy(&r.1), r.2 as i64 - T0 as i64, if r.4 == 0 { "(del)" } else { "" })).collect();
+    format!("[{}]", v.join(", "))
+}
+
+/// `which`: "C04" reports the swarm clauses, "C12" the subscriber clauses.
+pub async fn exec(nodes: &[LiveNode], hist: &[LEv], dec: bool, salt: u64, deadline: Duration, stats: &mut Stats, which: &str) -> Bad {
     let mut bad: Bad = vec![];
     let n = nodes.len();
     let sec = secret(salt, 7);
@@ -206,6 +262,20 @@ pub async fn exec(nodes: &[LiveNode], hist: &[LEv], dec: bool, salt: u64, deadli
         }
     }
     let addr0 = nodes[0].router.endpoint().addr();
+    let mut event_logs = vec![];
+    let mut event_tasks = vec![];
+    if which == "C12" {
+        for d in &docs {
+            match event_log(d).await {
+                Ok((l, t)) => {
+                    event_logs.push(l);
+                    event_tasks.push(t);
+                }
+                Err(e) => return vec![("machinery", json!({}), e)],
+            }
+        }
+    }
+    let mut local_writes: Vec<Vec<Row>> = vec![vec![]; n];
     let mut written: Vec<Row> = vec![];
     let mut syncing = vec![false; n];
     let mut foreign: Option<String> = None;
@@ -231,7 +301,10 @@ pub async fn exec(nodes: &[LiveNode], hist: &[LEv], dec: bool, salt: u64, deadli
                 set_clock(NOW);
                 if res.is_ok() {
                     match docs[node].get_exact(nodes[node].author, key, false).await {
-                        Ok(Some(e)) => written.push((e.author().to_bytes(), e.key().to_vec(), e.timestamp(), *e.content_hash().as_bytes(), e.content_len())),
+                        Ok(Some(e)) => {
+                            written.push(row_of(&e));
+                            local_writes[node].push(row_of(&e));
+                        }
                         other => bad.push(("accepted_write_is_readable", witness("write"), format!("node {node} accepted a write of {:?} but reads back {other:?}", String::from_utf8_lossy(key)))),
                     }
                 }
@@ -243,7 +316,10 @@ pub async fn exec(nodes: &[LiveNode], hist: &[LEv], dec: bool, salt: u64, deadli
                 set_clock(NOW);
                 if res.is_ok() {
                     match docs[node].get_exact(nodes[node].author, PREFIX, true).await {
-                        Ok(Some(e)) => written.push((e.author().to_bytes(), e.key().to_vec(), e.timestamp(), *e.content_hash().as_bytes(), e.content_len())),
+                        Ok(Some(e)) => {
+                            written.push(row_of(&e));
+                            local_writes[node].push(row_of(&e));
+                        }
                         other => bad.push(("accepted_write_is_readable", witness("delete"), format!("node {node} accepted a prefix deletion but reads back {other:?}"))),
                     }
                 }
@@ -346,6 +422,32 @@ pub async fn exec(nodes: &[LiveNode], hist: &[LEv], dec: bool, salt: u64, deadli
             bad.push(("converges_to_merge_of_local_writes", witness("closing"), format!("after complete sessions (reported successful by the engines) along the star around node 0 until a full pass transferred nothing: {}; the merge of all accepted local writes is {}", differ.join("; "), show(&want))));
         }
     }
+    if which == "C12" && premise && quiet {
+        // every event that is going to arrive has been caused; give the streams time to deliver
+        let all: BTreeSet<Row> = written.iter().cloned().collect();
+        let start = std::time::Instant::now();
+        loop {
+            let mut verdicts = vec![];
+            for (i, d) in docs.iter().enumerate() {
+                let held = dump(d).await.unwrap_or_default();
+                let own = nodes[i].author.to_bytes();
+                verdicts.extend(event_verdicts(i, &event_logs[i], &local_writes[i], &all, &held, own));
+            }
+            // only "an event is missing" can heal by waiting
+            let may_heal = !verdicts.is_empty() && verdicts.iter().all(|(o, _)| *o == "live_remote_event_for_every_entry_held" || *o == "live_local_events_match_accepted_writes");
+            if may_heal && start.elapsed() < deadline {
+                tokio::time::sleep(Duration::from_millis(20)).await;
+                continue;
+            }
+            for (o, d) in verdicts {
+                bad.push((o, witness("events"), d));
+            }
+            break;
+        }
+    }
+    for t in event_tasks {
+        t.abort();
+    }
     if std::env::var_os("VP_LIVE_DEBUG").is_some() {
         eprintln!("debug: written {} -> merge {}", show(&written.iter().cloned().collect()), show(&merge(&written)));
         for (i, d) in docs.iter().enumerate() {
@@ -362,6 +464,8 @@ pub async fn exec(nodes: &[LiveNode], hist: &[LEv], dec: bool, salt: u64, deadli
         let _ = nodes[i].docs.api().drop_doc(sec.id()).await;
     }
     set_clock(NOW);
+    // only the clauses of the asking property
+    bad.retain(|(o, _, _)| *o == "machinery" || *o == "premise_not_met" || (which == "C12") == o.starts_with("live_"));
     bad
 }
 
@@ -399,8 +503,14 @@ const LONG: Duration = Duration::from_secs(120);
 /// how long a history waits for the swarm to converge by itself (a timing point, not an oracle)
 const PATIENCE: Duration = Duration::from_secs(2);
 
-pub fn run_live_family(ctx: &Ctx, report: &mut Report) {
-    for (n, depth) in if ctx.quick() { vec![(2u8, 3usize), (3, 2)] } else { vec![(2, 4), (3, 3)] } {
+pub fn run_live_family(ctx: &Ctx, report: &mut Report, which: &'static str) {
+    let plan = match (which, ctx.quick()) {
+        ("C04", true) => vec![(2u8, 3usize), (3, 2)],
+        ("C04", false) => vec![(2, 4), (3, 3)],
+        (_, true) => vec![(2, 2), (3, 2)],
+        (_, false) => vec![(2, 3), (3, 3)],
+    };
+    for (n, depth) in plan {
         let evs = alphabet(n);
         let mut cases: Vec<(u64, Vec<LEv>, bool)> = vec![];
         let mut ordinal = (1u64 << 46) + ((n as u64) << 40);
@@ -430,12 +540,12 @@ pub fn run_live_family(ctx: &Ctx, report: &mut Report) {
                 if crate::util::watch::stopped() {
                     break;
                 }
-                let mut bad = exec(&ns, &hist, dec, ord, SHORT, &mut stats).await;
+                let mut bad = exec(&ns, &hist, dec, ord, SHORT, &mut stats, which).await;
                 let mut rerun = false;
                 if bad.iter().any(|(o, _, _)| *o == "premise_not_met") {
                     // a loaded machine: once more, with a long deadline
                     rerun = true;
-                    bad = exec(&ns, &hist, dec, ord ^ (1 << 39), LONG, &mut stats).await;
+                    bad = exec(&ns, &hist, dec, ord ^ (1 << 39), LONG, &mut stats, which).await;
                 }
                 out.push((ord, hist, dec, bad, rerun));
             }
@@ -478,7 +588,7 @@ pub fn run_live_family(ctx: &Ctx, report: &mut Report) {
     }
 }
 
-pub fn replay_live(case: &Value) -> anyhow::Result<Option<(bool, String)>> {
+pub fn replay_live(case: &Value, which: &'static str) -> anyhow::Result<Option<(bool, String)>> {
     let Some(c) = case.get("live") else { return Ok(None) };
     let n = c["nodes"].as_u64().unwrap_or(2) as usize;
     let hist: Vec<LEv> = serde_json::from_value(c["hist"].clone())?;
@@ -488,9 +598,9 @@ pub fn replay_live(case: &Value) -> anyhow::Result<Option<(bool, String)>> {
     let bad: anyhow::Result<Bad> = rt.block_on(async {
         let ns = nodes(n).await?;
         let mut stats = Stats::default();
-        let mut b = exec(&ns, &hist, dec, salt, SHORT, &mut stats).await;
+        let mut b = exec(&ns, &hist, dec, salt, SHORT, &mut stats, which).await;
         if b.iter().any(|(o, _, _)| *o == "premise_not_met") {
-            b = exec(&ns, &hist, dec, salt ^ (1 << 39), LONG, &mut stats).await;
+            b = exec(&ns, &hist, dec, salt ^ (1 << 39), LONG, &mut stats, which).await;
         }
         b.retain(|(o, _, _)| *o != "premise_not_met");
         shutdown(ns).await;
